@@ -1394,6 +1394,15 @@ class Segment:
                 return Effect('INERT_CALL', e[5], recv=e[1], name=e[2], args=e[3])
             if rt[0] in ('local', 'param'):
                 return Effect('OUT_CALL', e[5], recv=e[1], name=e[2], args=e[3])
+            def counter_value(t):
+                # the counter as it stands now: its entry value, or that +/- what the path has already added / removed
+                if isinstance(t, tuple) and len(t) == 3 and t[0] == 'add' and isinstance(t[2], int):
+                    t = t[1]
+                return is_ld(t) and t[2] == L.counter
+            if e[6] == 'W' and e[2] in ('store', 'operator=') and e[3] and L.counter is not None and counter_value(e[3][0]):
+                # publishing the element counter into an atomic mirror (for lock-free observers): a copy, not state of its own; whether
+                # observers may rely on it is the publication-discipline question the observer rules leave open (exit 2)
+                return Effect('INERT_CALL', e[5], recv=e[1], name=e[2], args=e[3])
             return Effect('OTHER_CALL', e[5], recv=e[1], name=e[2], args=e[3]) if e[6] == 'W' else None
         if k == 'wr':
             loc, val, site = e[1], e[2], e[3]
